@@ -10,11 +10,11 @@ from vlib.wsgi import make_environ, call_app
 
 ID = 'C20'
 LEVEL = 'exploration'
-RULE = ('case = (error kind in {404, 405, 400 malformed chunked body, 400 undecodable path, 500 handler crash whose exception text is the payload, '
+RULE = ('case = (error kind in {404, 404 next to an existing wildcard route (doubled / trailing slashes, extra segment, other case), 405 (literal and wildcard route), 400 malformed chunked body, 400 undecodable path, 500 handler crash whose exception text is the payload, '
         'last-resort critical-error page (custom error handler that raises / unknown charset)}, payload placed in the path, the query string, Host and '
         'X-Forwarded-Host, Accept = HTML or application/json, debug off). Payloads are built from fragments: marker markup <zqx>, closing tags of the '
         'template, attribute breakers ("zqx"), percent-encoded and double-encoded markup (%3Czqx%3E, %253C..), pre-escaped entities, format-string '
-        'syntax ({0}, {e.body}, {url}, %s), backslash escapes (\\\\x3c), quotes, NUL, non-ASCII. Oracle for text/html bodies: the tag/attribute skeleton '
+        'syntax ({0}, {e.body}, {url}, %s), backslash escapes (\\\\x3c), quotes, NUL, non-ASCII, optionally padded to 300-5000 characters before or after the marker. Oracle for text/html bodies: the tag/attribute skeleton '
         'parsed with html.parser equals the skeleton of the same error kind for a benign request, and none of <zqx, zqx>, "zqx, zqx" occurs verbatim; '
         'for default-handler errors requested as JSON: Content-Type application/json and the body parses as JSON. Non-trivial = the payload contains '
         'one of < > " { % or a percent-encoded markup character; distinct by case hash.')
@@ -24,8 +24,11 @@ FRAGS = ['<zqx>', '</zqx>', '<zqx a="1">', '"zqx"', "'zqx'", '</tt>', '</pre>', 
          '%253Czqx%253E', '&lt;zqx&gt;', '&#60;zqx&#62;', '&quot;zqx&quot;', '{0}', '{e.body}', '{url}', '{exception}', '{e.__class__}', '%s', '%(url)s', '{', '}', '{{', '}}',
          '\\x3czqx\\x3e', '\\u003czqx\\u003e', '\\', 'a', 'b/c', ' ', '\0', 'é', '日本', '<', '>', '"', '&', '#', '?', '=', ';', '<!--', '-->', '<zqx', 'zqx>', '\n', '\r\n',
          '<zqx\n>', '<ZQX>', 'javascript:zqx', '<img src=zqx onerror=zqx>']
-PAYLOAD = st.lists(st.sampled_from(FRAGS), min_size=1, max_size=5).map(''.join)
-KINDS = ['404', '405', '400-chunked', '400-path', '500', 'critical-handler', 'critical-charset']
+_SHORT = st.lists(st.sampled_from(FRAGS), min_size=1, max_size=5).map(''.join)
+PAYLOAD = st.one_of(_SHORT, _SHORT, _SHORT,
+                    st.tuples(_SHORT, st.sampled_from([300, 1100, 2100, 5000]), st.sampled_from(['a', '%41', 'é', '&'])).map(lambda t: t[0] + t[2] * t[1]),
+                    st.tuples(_SHORT, st.sampled_from([300, 1100, 2100, 5000]), st.sampled_from(['a', '/', 'b=1&'])).map(lambda t: t[2] * t[1] + t[0]))
+KINDS = ['404', '404-near-route', '405', '405-wild', '400-chunked', '400-path', '500', 'critical-handler', 'critical-charset']
 
 
 class Skel(HTMLParser):
@@ -68,6 +71,8 @@ def build_app(kind, payload):
     app = ombott.Ombott()
     app.route('/ok', callback=lambda: 'ok')
     app.route('/only', method='POST', callback=lambda: 'posted')
+    app.route('/user/<name>', callback=lambda name: 'user')
+    app.route('/wild/<x>/<y:path>', method='POST', callback=lambda x, y: 'wild')
 
     def crash():
         raise RuntimeError(payload)
@@ -107,8 +112,14 @@ def make_request(kind, payload, where, accept):
     ppart = payload if 'path' in where else 'plain'
     if kind in ('404', 'critical-handler'):
         return make_environ('GET', '/nf/' + ppart, qs=qs, headers=headers), (404 if kind == '404' else 500)
+    if kind == '404-near-route':
+        # a miss that lies next to an existing wildcard route: doubled / trailing slashes, one segment too many
+        near = ['/user//' + ppart, '/user/' + ppart + '/x', '/user/' + ppart + '//', '//user//' + ppart + '/y', '/User/' + ppart][len(payload) % 5]
+        return make_environ('GET', near, qs=qs, headers=headers), (404, 200)       # some spellings still reach the route: no error page then
     if kind == '405':
         return make_environ('GET', '/only', qs=qs, headers=headers), 405
+    if kind == '405-wild':
+        return make_environ('GET', '/wild/' + ppart.replace('/', '_') + '/' + ppart, qs=qs, headers=headers), (405, 404)   # 404 when the payload does not fit the wildcards
     if kind == '400-chunked':
         headers['Transfer-Encoding'] = 'chunked'
         return make_environ('POST', '/body', qs=qs, body=b'zz\r\nnot chunked', content_length=None, headers=headers), 400
@@ -142,7 +153,10 @@ def check_case(ctx, case):
     r = call_app(app, env)
     if r.escaped is not None:
         raise CheckFailure(f'{kind}: exception escaped: {fmt_exc(r.escaped)}')
-    if r.code != want_code:
+    if r.code == 200 and isinstance(want_code, tuple) and 200 in want_code:
+        ctx.count('near_route_spelling_reached_the_route')
+        return
+    if r.code not in (want_code if isinstance(want_code, tuple) else (want_code,)):
         raise CheckFailure(f'{kind}: expected status {want_code}, got {r.status!r} (payload {payload!r})')
     ct = (r.header('Content-Type') or '')
     body = r.body.decode('utf8', 'replace')
@@ -197,7 +211,8 @@ def run(ctx):
         ctx.count('corpus')
     if ctx.shard == 0:
         for kind in KINDS:
-            for p in ['<zqx>', '"zqx"', '%3Czqx%3E', '%22zqx%22', '</tt><zqx a="1">', '{0}{e.body}', '%253Czqx%253E', '&lt;zqx&gt;', '<script>zqx</script>']:
+            for p in ['<zqx>', '"zqx"', '%3Czqx%3E', '%22zqx%22', '</tt><zqx a="1">', '{0}{e.body}', '%253Czqx%253E', '&lt;zqx&gt;', '<script>zqx</script>',
+                      '<zqx>' + 'a' * 2100, 'a' * 2100 + '<zqx>', '<zqx>' + 'a' * 4100 + '"zqx"']:
                 for where in (['path'], ['query'], ['host'], ['xfh'], ['path', 'query', 'host']):
                     for accept in (None, 'application/json'):
                         ctx.guarded(check_case, {'kind': kind, 'payload': p, 'where': where, 'accept': accept})
